@@ -962,7 +962,22 @@ mod pipeline {
                 if idx != cnt - 1 {
                     runner = runner.stdout(Redirection::Pipe);
                 }
-                ret.push(runner.popen()?);
+                match runner.popen() {
+                    Ok(p) => ret.push(p),
+                    Err(e) => {
+                        // Dropping `ret` waits for the commands started
+                        // so far, one by one.  Release all of their pipe
+                        // ends first: a command can be blocked on a pipe
+                        // whose other end a later element still holds
+                        // (e.g. its own stderr(Redirection::Pipe)).
+                        for p in &mut ret {
+                            p.stdin.take();
+                            p.stdout.take();
+                            p.stderr.take();
+                        }
+                        return Err(e);
+                    }
+                }
             }
             Ok(ret)
         }
